@@ -1821,8 +1821,8 @@ func (m *Machine) VerifyStates(states S) error {
 		return nil
 	}
 
-	m.schemaMx.RLock()
-	defer m.schemaMx.RUnlock()
+	m.schemaMx.Lock()
+	defer m.schemaMx.Unlock()
 
 	return m.verifyStates(states)
 }
